@@ -195,6 +195,19 @@ func (c *LocalReusableWorkflowCache) writeCache(key string, val *ReusableWorkflo
 	c.mu.Unlock()
 }
 
+// writeCacheIfAbsent stores the value unless the key is already stored by other goroutine after readCache was
+// called. It returns the value in the cache and true in the case. This is necessary to return an error only to
+// one caller.
+func (c *LocalReusableWorkflowCache) writeCacheIfAbsent(key string, val *ReusableWorkflowMetadata) (*ReusableWorkflowMetadata, bool) {
+	c.mu.Lock()
+	defer c.mu.Unlock()
+	if m, ok := c.cache[key]; ok {
+		return m, true
+	}
+	c.cache[key] = val
+	return val, false
+}
+
 // FindMetadata finds/parses a reusable workflow metadata located by the 'spec' argument. When project
 // is not set to 'proj' field or the spec does not start with "./", this method immediately returns with nil.
 //
@@ -217,7 +230,9 @@ func (c *LocalReusableWorkflowCache) FindMetadata(spec string) (*ReusableWorkflo
 	file := filepath.Join(c.proj.RootDir(), filepath.FromSlash(spec))
 	src, err := os.ReadFile(file)
 	if err != nil {
-		c.writeCache(spec, nil) // Remember the workflow file was not found
+		if m, ok := c.writeCacheIfAbsent(spec, nil); ok { // Remember the workflow file was not found
+			return m, nil
+		}
 		// The error contains the file path as-is
 		msg := strings.ReplaceAll(err.Error(), "\n", " ")
 		return nil, fmt.Errorf("could not read reusable workflow file for %q: %s", spec, msg)
@@ -225,13 +240,15 @@ func (c *LocalReusableWorkflowCache) FindMetadata(spec string) (*ReusableWorkflo
 
 	m, err := parseReusableWorkflowMetadata(src)
 	if err != nil {
-		c.writeCache(spec, nil) // Remember the workflow file was invalid
+		if m, ok := c.writeCacheIfAbsent(spec, nil); ok { // Remember the workflow file was invalid
+			return m, nil
+		}
 		msg := strings.ReplaceAll(err.Error(), "\n", " ")
 		return nil, fmt.Errorf("error while parsing reusable workflow %q: %s", spec, msg)
 	}
 
 	c.debug("New reusable workflow metadata at %s: %v", file, m)
-	c.writeCache(spec, m)
+	m, _ = c.writeCacheIfAbsent(spec, m)
 	return m, nil
 }
 
